@@ -18,8 +18,9 @@ RULES = {
     'R3': 'no assertion reachable from the dump printer can be failed by file contents (each remaining assert condition is entailed)',
     'R4': 'cleanup: after the ring exists every path closes it and frees the record buffer; the descriptor is closed on every path; create_from_file closes the ring on every failure after qb_rb_open and opens it with CREATE (so close unlinks the files)',
     'R5': 'round trip: qb_rb_write_to_file and qb_rb_create_from_file agree on field order, sizes and the hash formula; the blackbox record written by _blackbox_vlogger is consumed field by field in the same order and sizes',
+    'R6': 'the decoder stays inside the record: the printer gives it the number of bytes left in the record (entailed <= bytes_read), and in the decoder every fixed-width argument read lies below that bound (data cursor + width <= bound, by abstract interpretation over the cursor), every string argument is used only behind a terminator search limited to the bytes left, and the cursor never passes the bound',
 }
-FLOORS = {'R1': 9, 'R2': 12, 'R3': 2, 'R4': 6, 'R5': 5}
+FLOORS = {'R1': 9, 'R2': 12, 'R3': 2, 'R4': 6, 'R5': 5, 'R6': 12}
 
 
 def run(ctx):
@@ -28,6 +29,7 @@ def run(ctx):
     r3(ctx)
     r4(ctx)
     r5(ctx)
+    r6(ctx)
 
 
 def r1(ctx):
@@ -120,12 +122,25 @@ def r2(ctx):
         if ti.get('kind') == 'array' and ti.get('n'):
             arrs[ev.d['var']] = Lin(ti['n'] * (ti.get('elem_bytes') or 1))
 
+    dimpl, dnames = c14.decoder_family(prog)
+    bounded = {'n': 0, 'unbounded': []}
+
     def summ_deser(an, ev, st):
         n = an.lin(ev.args[1], st)
         if n is not None:
-            an.check_write(ev, ev.args[0], n, st, 'qb_vsnprintf_deserialize(%s, %s, ..)' % (estr(ev.args[0]), estr(ev.args[1])))
+            an.check_write(ev, ev.args[0], n, st, '%s(%s, %s, ..)' % (ev.callee, estr(ev.args[0]), estr(ev.args[1])))
+        # R6: the decoder is told how many bytes of the record it may read, and they are inside what was read
+        if ev.callee == dimpl.name and len(ev.args) >= 4:
+            m = an.lin(ev.args[3], st)
+            if m is not None and an.check_read(ev, ev.args[2], m, st, 'decode %s bytes at %s' % (estr(ev.args[3]), estr(ev.args[2]))):
+                bounded['n'] += 1
+            else:
+                an.oblige(ev, 'decode-bound-known', None, st, 'the byte count given to the decoder (%s) cannot be related to the record' % estr(ev.args[3]))
+        else:
+            if all(e.d is not ev.d for e in bounded['unbounded']):
+                bounded['unbounded'].append(ev)
 
-    an = RecAnalysis(prog, f, dict(arrs), summaries={'qb_vsnprintf_deserialize': summ_deser, 'my_strlcpy': c14.strl_summary})
+    an = RecAnalysis(prog, f, dict(arrs), summaries=dict([(nm, summ_deser) for nm in dnames] + [('my_strlcpy', c14.strl_summary)]))
     an.readcaps = {buf: Lin.term(nbytes)}
     an.extra_nonneg = ('my_strlcpy', 'my_strlcat', 'strftime')
 
@@ -133,7 +148,7 @@ def r2(ctx):
 
     def transfer(ev, st):
         # len = qb_vsnprintf_deserialize(message, N, ..):  1 <= len <= N  (contract verified in C14 / R3 below)
-        if ev.kind == 'STORE' and ev.rhs is not None and callee_of(unwrap(ev.rhs)) == 'qb_vsnprintf_deserialize' and unwrap(ev.lhs).get('k') == 'var':
+        if ev.kind == 'STORE' and ev.rhs is not None and callee_of(unwrap(ev.rhs)) in dnames and unwrap(ev.lhs).get('k') == 'var':
             orig_transfer(ev, st)
             name = unwrap(ev.lhs)['n']
             n = an.lin(unwrap(ev.rhs)['args'][1], st)
@@ -159,10 +174,21 @@ def r2(ctx):
         orig_transfer(ev, st)
     an.transfer = transfer
     an.run()
+    import os
+    if os.environ.get('QBDBG'):
+        for (b, i), sts in sorted(an.states.items()):
+            ev = f.blocks[b].events[i]
+            if ev.kind == 'CALL' and ev.callee == 'memcpy' and 'msg_len' in estr(ev.args[0]):
+                for st in sts:
+                    print('DBGSTATE', ev.ln, st)
     n = 0
     for (ev, key, text, ok) in an.obligations:
         n += 1
-        ctx.check('R2', 'print:%s' % key, ok, ev, 'entailed', text)
+        ctx.check('R6' if key.startswith('decode') else 'R2', 'print:%s' % key, ok, ev, 'entailed', text)
+    for ev in bounded['unbounded']:
+        ctx.check('R6', 'print:decoder-given-the-record-end', False, ev, '',
+                  'the printer decodes the message with %s, which is not told where the record ends: the argument bytes a damaged '
+                  'format asks for are read from behind the record and behind the record buffer' % ev.callee)
     reads = sum(1 for (_e, key, _t, _o) in an.obligations if 'within-valid-bytes' in key)
     if reads < 5:
         raise AnalysisBroken('print_from_file: only %d reads through the record cursor were recognised' % reads)
@@ -180,7 +206,9 @@ def r2(ctx):
         return a.op == '==' and a.rc == 0 and l.get('k') == 'idx' and estr(l['b']) == fnvar
     ctx.check('R2', 'function-name-terminated', f.uncut_path(pr[0], terminated) is None, pr[0], 'the function name is printed only after its last byte inside the record was seen to be NUL',
               'the function name is printed as a string without a terminator check (read past the record)')
-    ds = list(f.calls('qb_vsnprintf_deserialize'))
+    ds = list(f.calls(*sorted(dnames)))
+    if not ds:
+        raise AnalysisBroken('print_from_file: no decoder call')
 
     def has_nul(a, fb):
         return a.op == '!=' and a.rc == 0 and callee_of(unwrap(a.l)) == 'memchr'
@@ -205,7 +233,7 @@ def r2(ctx):
 def r3(ctx):
     prog = ctx.prog
     # decoder returns >= 1 (so assert(len > 0) cannot fail)
-    d = prog.fn('qb_vsnprintf_deserialize')
+    d, dnames = c14.decoder_family(prog)
     sp, lp = d.params[0]['n'], d.params[1]['n']
     bufs = {sp: Lin.term(lp)}
     for ev in d.events('DECL'):
@@ -221,7 +249,7 @@ def r3(ctx):
             # my_strlcat(...) + 1
             r = unwrap(ev.e)
             ok = ok and r.get('k') == 'bin' and r['op'] == '+' and (cval(unwrap(r['r'])) or 0) >= 1 and callee_of(unwrap(r['l'])) in ('my_strlcat', 'my_strlcpy')
-    ctx.check('R3', 'decoder-returns>=1', ok, d, 'qb_vsnprintf_deserialize returns at least 1 on every path', 'qb_vsnprintf_deserialize can return 0: assert(len > 0) in the dump printer aborts on file contents')
+    ctx.check('R3', 'decoder-returns>=1', ok, d, '%s returns at least 1 on every path' % d.name, d.name + ' can return 0: assert(len > 0) in the dump printer aborts on file contents')
     # assertions in the dump path
     n = 0
     for fname in ('qb_rb_create_from_file', 'qb_log_blackbox_print_from_file'):
@@ -241,7 +269,7 @@ def r3(ctx):
                 for a in ats:
                     if a.op == '<=' and a.rc == 0 and unwrap(a.l).get('k') == 'var':
                         defs, entry = f.reaching_defs(unwrap(a.l)['n'], f.end_of(p))
-                        if defs and not entry and all(dd.kind == 'STORE' and callee_of(unwrap(dd.rhs)) == 'qb_vsnprintf_deserialize' for dd in defs):
+                        if defs and not entry and all(dd.kind == 'STORE' and callee_of(unwrap(dd.rhs)) in dnames for dd in defs):
                             ok = True
             ctx.check('R3', '%s:assert(%s)' % (fname, why), ok, '%s:%d (%s)' % (f.file, f.blocks[conds[0][0]].term_ln if conds else f.line, fname),
                       'assert(%s) cannot fail: the decoder returns >= 1' % why,
@@ -420,3 +448,124 @@ def r5(ctx):
     ok = bool(mins) and all(cval(m) is not None for m in mins)
     ctx.check('R5', 'record:min-entry-size', ok and cval(mins[0]) >= 4 + 4 + 1 + 4 + 4, p, 'BB_MIN_ENTRY_SIZE (%s) covers the fixed fields' % (cval(mins[0]) if mins else None),
               'BB_MIN_ENTRY_SIZE is smaller than the fixed part of a record')
+
+
+class DecAnalysis(c14.EncAnalysis):
+    """adds what a successful memchr says: p = memchr(b, c, n), p != NULL  =>  b <= p <= b + n - 1 (and so n >= 1)"""
+
+    def _memchr_def(self, var, blk):
+        f = self.fn
+        defs, entry = f.reaching_defs(var, f.end_of(blk))
+        if entry or len(defs) != 1:
+            return None
+        dd = defs[0]
+        rhs = unwrap(dd.rhs) if dd.kind == 'STORE' else unwrap(dd.d.get('init') or {})
+        if callee_of(rhs) != 'memchr' or len(rhs['args']) != 3:
+            return None
+        # operands must still have the value they had at the call: only parameters that are never assigned
+        pn = {q['n'] for q in f.params}
+        for a in (rhs['args'][0], rhs['args'][2]):
+            for n in walk(a):
+                if n.get('k') == 'var' and (n['n'] not in pn or any(True for _ in f.stores(var=n['n']))):
+                    return None
+                if n.get('k') in ('call', 'deref', 'idx', 'member'):
+                    return None
+        return rhs
+
+    def refine(self, st, cond, lab):
+        ok = super().refine(st, cond, lab)
+        for a in atoms_of(cond, lab):
+            l = unwrap(a.l)
+            if a.op == '!=' and a.rc == 0 and l.get('k') == 'var' and l.get('sc') in ('l', 'p'):
+                blk = self._cur_blk
+                call = self._memchr_def(l['n'], blk)
+                if call is not None:
+                    b, n = self.lin(call['args'][0], st), self.lin(call['args'][2], st)
+                    if b is not None and n is not None:
+                        st.add_le(b, Lin.term(l['n']))
+                        st.add_le(Lin.term(l['n']), b + n - 1)
+        return ok
+
+    def _block_outs(self, b, states):
+        self._cur_blk = b
+        return super()._block_outs(b, states)
+
+    def nul_guard(self, ev, ptr):
+        """the size expression n of a live guard memchr(ptr, 0, n) != NULL dominating ev"""
+        want = estr(unwrap(ptr))
+        for (a, _edge) in self.fn.guards_live(ev):
+            l = unwrap(a.l)
+            if a.op == '!=' and a.rc == 0 and callee_of(l) == 'memchr' and len(l['args']) == 3 and \
+                    estr(unwrap(l['args'][0])) == want and cval(unwrap(l['args'][1])) == 0:
+                return l['args'][2]
+        return None
+
+    def transfer(self, ev, st):
+        # cursor += strlen(s) + 1  with s known to be terminated within n bytes:  0 <= strlen(s) <= n - 1
+        if ev.kind == 'STORE' and ev.d.get('op') == '+=' and unwrap(ev.lhs).get('k') == 'var':
+            r = unwrap(ev.rhs)
+            if r.get('k') == 'bin' and r['op'] == '+' and cval(unwrap(r['r'])) is not None and callee_of(unwrap(r['l'])) == 'strlen':
+                sarg = unwrap(r['l'])['args'][0]
+                nexpr = self.nul_guard(ev, sarg)
+                n = self.lin(nexpr, st) if nexpr is not None else None
+                name = unwrap(ev.lhs)['n']
+                if n is not None:
+                    st.add_le(0, Lin.term('#s'))
+                    st.add_le(Lin.term('#s'), n - 1)
+                    st.assign(name, Lin.term(name) + Lin.term('#s') + cval(unwrap(r['r'])))
+                    st.forget('#s')
+                    return
+        super().transfer(ev, st)
+
+
+def r6(ctx):
+    prog = ctx.prog
+    d, dnames = c14.decoder_family(prog)
+    if len(d.params) < 4:
+        ctx.note('R6: the decoder %s takes no input bound; decided at its call in the printer' % d.name)
+        return
+    sp, lp, bp, np_ = (q['n'] for q in d.params[:4])
+    bufs = {sp: Lin.term(lp)}
+    for ev in d.events('DECL'):
+        ti = prog.type_info(ev.d.get('ty', ''))
+        if ti.get('kind') == 'array':
+            bufs[ev.d['var']] = Lin(ti['n'])
+    an = DecAnalysis(prog, d, bufs, init=[Lin(1) - Lin.term(lp)], summaries={'my_strlcpy': c14.strl_summary, 'my_strlcat': c14.strl_summary})
+    an.readcaps = {bp: Lin.term(np_)}
+    an.run()
+    n = 0
+    for (ev, key, text, ok) in an.obligations:
+        if 'within-valid-bytes' in key or ('offset>=0' in key and ('source' in key or key.startswith('read '))):
+            n += 1
+            ctx.check('R6', 'decoder:%s' % key, ok, ev, 'entailed', text)
+    if n < 6:
+        raise AnalysisBroken('%s: only %d argument reads recognised' % (d.name, n))
+    # the address of an argument byte escapes only into bounded reads: memcpy sources (above), the terminator search itself,
+    # or string uses behind a terminator search over the bytes left
+    uses = 0
+    for ev in d.events('CALL'):
+        for i, a in enumerate(ev.args):
+            u = unwrap(a)
+            if not (u.get('k') == 'addr' and unwrap(u['e']).get('k') == 'idx' and estr(unwrap(unwrap(u['e'])['b'])) == bp):
+                continue
+            if ev.callee in ('memcpy', 'memmove') and i == 1:
+                continue
+            sts = [s for (b, i2) in [(ev.blk, ev.idx)] for s in an.states.get((b, i2), [])]
+            if ev.callee == 'memchr' and i == 0:
+                # the search itself: its limit is the bytes left
+                off = an.lin(unwrap(u['e'])['i'], sts[0]) if sts else None
+                lim = an.lin(ev.args[2], sts[0]) if sts else None
+                ok = bool(sts) and off is not None and lim is not None and all(st.entails(off + lim - Lin.term(np_)) for st in sts)
+                uses += 1
+                ctx.check('R6', 'decoder:terminator-search-limited', ok, ev, 'memchr(%s, .., %s) looks at no byte behind the bound' % (estr(a), estr(ev.args[2])),
+                          'the terminator search for a string argument may look behind the bound: %s' % estr(ev.args[2]))
+                continue
+            uses += 1
+            nexpr = an.nul_guard(ev, a)
+            ctx.check('R6', 'decoder:string-argument-terminated:%s' % ev.callee, nexpr is not None, ev,
+                      '%s uses %s only behind memchr(%s, 0, %s) != NULL' % (ev.callee, estr(a), estr(a), estr(nexpr) if nexpr is not None else ''),
+                      '%s reads a string at %s that was not seen to end inside the bound (no terminator search over the bytes left on every path, or the cursor moved since)' % (ev.callee, estr(a)))
+    if uses < 2:
+        raise AnalysisBroken('%s: string argument uses = %d' % (d.name, uses))
+    # a pointer to an argument byte stored in a local and dereferenced: covered by the read obligations when the engine resolves it
+    ctx.note('decoder %s analysed with read bound %s on %s: %d read obligations, %d string uses' % (d.name, np_, bp, n, uses))
